@@ -116,6 +116,9 @@ def change_extension_functions_to_calls(
                 return node
             if node.func.attr not in function_names:
                 return node
-            return function_call(node.func.attr, [node.func.value] + node.args)
+            call = function_call(node.func.attr, [node.func.value] + node.args)
+            # Arguments given by keyword are arguments too.
+            call.keywords = node.keywords
+            return call
 
     return transform_calls().visit(a)
